@@ -2,7 +2,7 @@
    This file only states the property theorems and prints their assumptions. *)
 From Coq Require Import String QArith List Bool.
 From Cobra.LP Require Import Defs Cert Fba.
-From Cobra.Medium Require Import Model Proofs.
+From Cobra.Medium Require Import Model Proofs MinMedium MinProofs MilpProofs.
 From Cobra.Gen Require Import MediumTables.
 Import ListNotations.
 Open Scope Q_scope.
@@ -96,3 +96,76 @@ Example C18_toy :
         mkXr false true true (Fin 0) (Fin 1000)] /\
   medium_set [mkXr true true false (Fin (-10)) (Fin (-1))] [] = Raised ValueError [mkXr true true false (Fin (-10)) (Fin (-1))].
 Proof. vm_compute. repeat split. Qed.
+
+(* ---------------- minimal_medium ---------------- *)
+
+(* Linear version.  If what the solver holds is optimal for the problem built by add_linear_obj + the
+   growth constraint (forward/reverse encoding), then the net fluxes v are a flux distribution of the
+   model reaching min_objective_value, the minimised quantity is the total import flux of v (= the sum
+   of the returned medium, see C18_as_medium_total) and no flux distribution reaching the value within
+   the current bounds imports less in total.                                                  *)
+Theorem C18_min_medium_lp : forall m ex t zs, valid_model m -> is_opt (mm_lp m ex t) (flat zs) ->
+  let v := nets zs in
+  feasible (net_lp m) v /\ t <= dot (cvec m) v /\
+  dot (imp_flat ex) (flat zs) == total_import ex v /\
+  forall v', feasible (net_lp m) v' -> t <= dot (cvec m) v' -> total_import ex v <= total_import ex v'.
+Proof. exact min_medium_lp. Qed.
+Print Assumptions C18_min_medium_lp.
+
+(* The returned medium (positive import fluxes of v) is sufficient: assigning it with the medium setter
+   is accepted and keeps v feasible, so the optimum of the model on that medium reaches the value. *)
+Theorem C18_medium_sufficient : forall m ex v,
+  valid_model m -> length ex = length (rxns m) -> feasible (net_lp m) v ->
+  exists m', apply_medium m ex (as_medium false ex v) = Some m' /\
+             feasible (net_lp m') v /\ cvec m' = cvec m /\ valid_model m'.
+Proof. exact medium_sufficient. Qed.
+Print Assumptions C18_medium_sufficient.
+
+(* None (solver status not optimal) exactly when no medium within the current bounds suffices; the
+   problem is never unbounded, so "not optimal" can only mean infeasible.                      *)
+Theorem C18_min_medium_none : forall m ex t, valid_model m ->
+  (infeasible (mm_lp m ex t) <-> ~ exists v, feasible (net_lp m) v /\ t <= dot (cvec m) v) /\
+  (forall x, feasible (mm_lp m ex t) x -> value (mm_lp m ex t) x <= 0).
+Proof. intros m ex t Hv. split; [now apply min_medium_none|intros x; now apply mm_bounded]. Qed.
+Print Assumptions C18_min_medium_none.
+
+(* minimize_components: an optimum of the MILP of add_mip_obj (big_m at least every |bound| of an
+   exchange) uses the smallest possible number of importing exchanges, and that number is the value of
+   the MILP objective.                                                                         *)
+Theorem C18_min_medium_milp : forall m ex t M zs inds,
+  valid_model m -> length ex = length (rxns m) -> bigm_ok M ex (rxns m) ->
+  mip_opt m ex t M zs inds ->
+  let v := nets zs in
+  feasible (net_lp m) v /\ t <= dot (cvec m) v /\
+  ind_sum ex inds == inject_Z (Z.of_nat (ncomp ex v)) /\
+  forall v', feasible (net_lp m) v' -> t <= dot (cvec m) v' -> (ncomp ex v <= ncomp ex v')%nat.
+Proof. exact min_medium_milp. Qed.
+Print Assumptions C18_min_medium_milp.
+
+(* The exact oracle used by the correspondence for the number of components (all 2^k subsets of the
+   exchanges generated inside Coq, one LP certificate each) is sound.                          *)
+Theorem C18_check_components_sound : forall m ex t certs, length ex = length (rxns m) ->
+  (forall n, check_components m ex t certs = Some (Some n) ->
+     (exists v, feasible (net_lp m) v /\ t <= dot (cvec m) v /\ (ncomp ex v <= n)%nat) /\
+     (forall v, feasible (net_lp m) v -> t <= dot (cvec m) v -> (n <= ncomp ex v)%nat)) /\
+  (check_components m ex t certs = Some None ->
+     forall v, feasible (net_lp m) v -> ~ t <= dot (cvec m) v).
+Proof. exact check_components_sound. Qed.
+Print Assumptions C18_check_components_sound.
+
+(* Alternatives (minimize_components = k > 1) being pairwise different is not a theorem here; it is
+   monitored on every returned DataFrame (docs/C18.md).                                         *)
+
+(* non-vacuity: uptake A (written `A -->`, import <= 10) feeding a sink with objective 1; target 4 *)
+Definition toy_mm : fbamodel :=
+  mkFba 1 [mkRxn [-1] (Fin (-10)) (Fin 1000) 0; mkRxn [-1] (Fin 0) (Fin 1000) 1] true.
+Example C18_toy_mm :
+  valid_model toy_mm /\
+  is_opt (mm_lp toy_mm [Some true; None] 4) (flat [(0, 4); (4, 0)]) /\
+  as_medium false [Some true; None] (nets [(0, 4); (4, 0)]) = [(0%nat, - (0 - 4))] /\
+  check_components toy_mm [Some true; None] 4 [SOpt [0; 0] [-1]; SOpt [-10; 10] [-1]] = Some (Some 1%nat).
+Proof.
+  split; [apply valid_model_b_ok; reflexivity|].
+  split; [apply (check_opt_sound _ _ [-1; -1]); vm_compute; reflexivity|].
+  split; vm_compute; reflexivity.
+Qed.
